@@ -115,12 +115,19 @@ impl IterableKind {
                 .unwrap_or(PrimitiveKind::Undefined),
             IterableKind::Booleans(_) => PrimitiveKind::Boolean,
             IterableKind::Graphs(_) => PrimitiveKind::Graph,
-            IterableKind::Iterables(i) => PrimitiveKind::Iterable(
-                i.first()
+            IterableKind::Iterables(i) => {
+                let first = i
+                    .first()
                     .map(|e| e.inner_type())
-                    .unwrap_or(PrimitiveKind::Undefined)
-                    .into(),
-            ),
+                    .unwrap_or(PrimitiveKind::Undefined);
+                //rows of different kinds (integers and decimals, or different
+                //depths) only have a runtime type in common
+                if i.iter().any(|e| e.inner_type() != first) {
+                    PrimitiveKind::Iterable(PrimitiveKind::Any.into())
+                } else {
+                    PrimitiveKind::Iterable(first.into())
+                }
+            }
         }
     }
     pub fn len(&self) -> usize {
